@@ -1270,7 +1270,7 @@ def _check_solved(case, it, w, viol, stats, probe, props):
                              'but y() + y.get(z) @ v = %s' % (rows_v[s], labels[s], [float(v_) for v_ in vals[s]], want),
                              tags=['scenariowise_realisation_single_event'] if len(ex['py']) == 1 else [])
                         if len(ex['py']) == 1:
-                            break                  # recorded finding K8: keep checking the rest
+                            break                  # (was known finding K8, repaired as F23): keep checking the rest
                         return
         except Exception as e:
             viol('C12', 'rule-eval-raises', 'y(z.assign(...)) raised %r' % (e,), exc=type(e).__name__, tags=['rule_eval_' + case['kind']])
@@ -1288,6 +1288,17 @@ def _check_solved(case, it, w, viol, stats, probe, props):
                     viol('C12', 'expr-eval-biaffine', '(y[%d] - c.z)(z.assign(%s)) = %.9g at label %r, NumPy evaluation %.9g'
                          % (i, list(zv), rows_e[s].reshape(-1)[0], labels[s], want))
                     return
+            if case['kind'] == 'combo-dro' and len(arrays_) == 1:
+                # the same bi-affine expression at scenario-wise realisations
+                stats['checks_c12'] += 1
+                vals = [zv * (0.5 * s + 1.0) for s in range(S)]
+                rows_e, _ = _series_to_rows(expr(zobj.assign(np.array(vals), sw=True)), S)
+                for s in range(S):
+                    want = float(rows_c[s][i]) + Yrow @ vals[s] - np.array(case['c'][i]) @ vals[s]
+                    if not close(float(rows_e[s].reshape(-1)[0]), want, 1e-5):
+                        viol('C12', 'expr-eval-biaffine-scenariowise', '(y[%d] - c.z)(z.assign(values, sw=True)) = %.9g at label %r '
+                             '(realisation %s), NumPy evaluation %.9g' % (i, rows_e[s].reshape(-1)[0], labels[s], list(vals[s]), want))
+                        return
     except Exception as e:
         viol('C12', 'biaffine-eval-raises', '(y[i] - c@z)(z.assign(v)) raised %r' % (e,), exc=type(e).__name__,
              tags=['biaffine_eval_' + case['kind']])
